@@ -703,6 +703,17 @@ def _clone(ck: Check, repo: Repo) -> None:
     ck.ob("C04.5", fn, loads[0] if loads else fn.node, ok, "the clone loads the parent's complete state dict")
     strict = get_kw(loads[0], "strict") if loads else None
     ck.ob("C04.5", fn, loads[0] if loads else fn.node, strict is None or const_value(strict) is True, "the load is strict (every parameter must match)")
+    # the clone computes the parent's function only in the parent's mode (BatchNorm statistics, dropout): a freshly constructed module is in training mode
+    modes = []
+    for c in calls_in(fn.node):
+        if isinstance(c.func, ast.Attribute) and c.func.attr == "train" and isinstance(c.func.value, ast.Name) and _receiver_bound_to(ccfg, c, built):
+            arg = get_kw(c, "mode", 0)
+            n_ = ccfg.node_of(c)
+            if arg is not None and dotted(arg) == "self.training" and n_ is not None and ccfg.postdominates(n_, ccfg.entry):
+                modes.append(c)
+    ck.ob("C04.5", fn, modes[0] if modes else fn.node, bool(modes), "the clone is put into the parent's train / eval mode on every path",
+          detail="" if modes else "the constructed clone stays in training mode: the clone of a network in eval mode normalises with batch statistics / applies dropout, "
+                                  "so it does not reproduce the parent's outputs", construct="EvolvableModule.clone: mode carried over")
     for t in tries:
         for h in t.handlers:
             swallow = all(isinstance(s, ast.Pass) for s in h.body)
